@@ -44,5 +44,13 @@ META["C07"] = {
     "note": "Trusted: Lean kernel, transcription (validated by replay), fakes. 'Consulting the application' = any call across the application interfaces.",
 }
 
+META["C10"] = {
+    "category": "proof",
+    "design_ref": "DESIGN.md section 5 / C10",
+    "technique": "Lean 4: write-discipline monitor (at most one status, headers before it, body after it) with the three end states as postcondition; the side-effect code is shown never to touch the response by re-using the lock-discipline proofs in 'quiet' mode (bridge lemma), then each entry point's skeleton is walked; for all requests and environments; status table checked on replayed real traces",
+    "text": "For every request and every behaviour of the application each of the five entry points ends not-handled with nothing written, or with an error and nothing written by the library (except when the body write itself failed), or handled with exactly one status (none by the library when the application's Authenticate hook refused): proved. That all inbox/outbox side effects, delivery and forwarding make no ResponseWriter call is a corollary of the C09 proofs re-checked under a monitor that forbids writes. The documented status per branch (405/400/403/200/410/201+Location) is checked on every replayed trace by an independent monitor; one defect found there (unusable id answered 200) was repaired by a fix: commit.",
+    "note": "Trusted: Lean kernel, transcription (validated by replay), counting writer. The status table is correspondence-level (monitor + model agreement), the exactly-once discipline is proof-level.",
+}
+
 _ALL = ["C%02d" % i for i in range(1, 21)]
 NOT_APPLICABLE = [{"property_id": p, "reason": PENDING} for p in _ALL if p not in META]
